@@ -158,6 +158,7 @@ func convertPair(via string, want cty.Type, u, m cty.Value) *pair {
 		site: site, family: "convert", label: fmt.Sprintf("(-> %#v)", want),
 		unmarked: []cty.Value{u}, marked: []cty.Value{m},
 		call: call, promised: []string{"top"}, pname: []string{"the converted value"},
+		convTarget: &want,
 	}
 }
 
